@@ -127,6 +127,15 @@ func (c *Cluster) asyncTick(a, b *SimNode, s *Step) {
 		return
 	}
 	t := &task{id: len(c.tasks), kind: "gossip", n: a, plan: map[string]int{"pull": s.N, "push": int(s.D)}}
+	if s.Late > 0 {
+		// park at a lock gap instead: between pull and push, or (inside the
+		// responder's handler) between computing the diff and reading its known map
+		site := "gossip.between"
+		if s.Late%2 == 0 {
+			site = "syncreq.between"
+		}
+		t.plan[site] = s.Late
+	}
 	nd := a.node
 	c.stats.probe("async-gossip")
 	c.runTask(t, func() {
